@@ -159,3 +159,25 @@ V("c20-pop-condition", "C20", SCHEM, "            if i > 0:\n                dra
 V("c20-latex-substitute", "C20", "circuit/circuit.py", "        return f\"Z = {latex(self.to_sympy(substitute=False))}\"", "        return f\"Z = {latex(self.to_sympy(substitute=True))}\"", "fire", "Circuit.to_latex:source")
 V("c20-sympy-skip-container", "C20", "circuit/series.py", "            if isinstance(element, Container) or isinstance(element, Connection):\n                expr += element.to_sympy(substitute=substitute, identifiers=identifiers)\n            elif isinstance(element, Element):", "            if isinstance(element, Container):\n                expr += element.to_sympy(substitute=substitute, identifiers=identifiers)\n            elif isinstance(element, Element):", "fire", "Series.to_sympy:missing")
 V("c20-benign-reorder-arms", "C20", SCHEM, "            if isinstance(elem_con, Element):\n                draw_element(elem_con, drawing)\n            elif isinstance(elem_con, Series):\n                draw_series(elem_con, drawing)\n            elif isinstance(elem_con, Parallel):\n                draw_parallel(elem_con, drawing)\n            else:", "            if isinstance(elem_con, Series):\n                draw_series(elem_con, drawing)\n            elif isinstance(elem_con, Element):\n                draw_element(elem_con, drawing)\n            elif isinstance(elem_con, Parallel):\n                draw_parallel(elem_con, drawing)\n            else:", "silent")
+
+# ---------------------------------------------------------------- C08
+V("c08-residuals-swapped-model", "C08", "analysis/drt/tr_nnls.py", "        residuals=_calculate_residuals(Z_exp, Z_fit),\n        pseudo_chisqr=_calculate_pseudo_chisqr(Z_exp, Z_fit),\n        lambda_value=lambda_value,", "        residuals=_calculate_residuals(Z_fit, Z_exp),\n        pseudo_chisqr=_calculate_pseudo_chisqr(Z_exp, Z_fit),\n        lambda_value=lambda_value,", "fire", "TRNNLSResult:residuals")
+V("c08-masked-none", "C08", "analysis/drt/tr_nnls.py", "        Z_exp: ComplexImpedances = data.get_impedances()\n        omega: NDArray[float64] = 2 * pi * f", "        Z_exp: ComplexImpedances = data.get_impedances(masked=None)\n        omega: NDArray[float64] = 2 * pi * f", "fire", "masked")
+V("c08-fit-no-deepcopy", "C08", FIT, "    circuit = deepcopy(original_circuit)", "    circuit = original_circuit", "fire", "fit_circuit:circuit")
+V("c08-chisqr-before-writeback", "C08", FIT, "    _from_lmfit(fit.params, identifiers)\n\n    return (\n        circuit,\n        _calculate_pseudo_chisqr(Z_exp=Z_exp, Z_fit=circuit.get_impedances(f)),",
+  "    Xps = _calculate_pseudo_chisqr(Z_exp=Z_exp, Z_fit=circuit.get_impedances(f))\n    _from_lmfit(fit.params, identifiers)\n\n    return (\n        circuit,\n        Xps,", "fire", "chisqr-producer")
+V("c08-residual-definition", "C08", "analysis/utility.py", "    return (Z_exp - Z_fit) / abs(Z_exp)", "    return (Z_exp - Z_fit) / abs(Z_fit)", "fire", "definitions:identity")
+V("c08-mrq-regress", "C08", "analysis/drt/mrq_fit.py", "        residuals=_calculate_residuals(Z_exp=data.get_impedances(), Z_fit=Z_fit),", "        residuals=fit.residuals,", "fire", "MRQFitResult:residuals-source")
+V("c08-zhit-regress", "C08", "analysis/zhit/__init__.py", "        pseudo_chisqr=_calculate_pseudo_chisqr(\n            Z_exp=data.get_impedances(),\n            Z_fit=Z_fit,\n        ),", "        pseudo_chisqr=pseudo_chisqr,", "fire", "ZHITResult:chisqr-source")
+V("c08-kk-weight", "C08", "analysis/kramers_kronig/exploratory.py", "    fits.sort(key=lambda f: f[0])\n    weight = _boukamp_weight(Z_exp, admittance=False)\n    pseudo_chisqrs: List[float] = [\n        _calculate_pseudo_chisqr(\n            Z_exp,\n            circuit.get_impedances(f),\n            weight,\n        )\n        for (num_RC, circuit) in fits\n    ]\n\n    return _KKFits(\n        log_F_ext=log_F_ext,\n        num_RCs=[f[0] for f in fits],\n        circuits=[f[1] for f in fits],\n        pseudo_chisqrs=pseudo_chisqrs,\n    )\n\n\ndef _use_cnls(",
+  "    fits.sort(key=lambda f: f[0])\n    weight = _boukamp_weight(Z_exp, admittance=admittance)\n    pseudo_chisqrs: List[float] = [\n        _calculate_pseudo_chisqr(\n            Z_exp,\n            circuit.get_impedances(f),\n            weight,\n        )\n        for (num_RC, circuit) in fits\n    ]\n\n    return _KKFits(\n        log_F_ext=log_F_ext,\n        num_RCs=[f[0] for f in fits],\n        circuits=[f[1] for f in fits],\n        pseudo_chisqrs=pseudo_chisqrs,\n    )\n\n\ndef _use_cnls(", "fire", "_use_matrix_inversion:pairing")
+V("c08-benign-keyword-args", "C08", "analysis/drt/tr_nnls.py", "        residuals=_calculate_residuals(Z_exp, Z_fit),\n        pseudo_chisqr=_calculate_pseudo_chisqr(Z_exp, Z_fit),\n        lambda_value=lambda_value,", "        residuals=_calculate_residuals(Z_exp=Z_exp, Z_fit=Z_fit),\n        pseudo_chisqr=_calculate_pseudo_chisqr(Z_fit=Z_fit, Z_exp=Z_exp),\n        lambda_value=lambda_value,", "silent")
+
+# ---------------------------------------------------------------- C17
+V("c17-zhit-key-regress", "C17", "analysis/zhit/offset.py", "    return sorted(results, key=lambda _: (_[0], _[2], _[3], _[4]))", "    return sorted(results, key=lambda _: _[0])", "fire", "partial-key")
+V("c17-serial-other-worker", "C17", "analysis/zhit/offset.py", "        for res in map(_adjust_offset, args):", "        for res in map(_adjust_offset, reversed(args)):", "fire", "twin")
+V("c17-new-random", "C17", "analysis/drt/tr_nnls.py", "        g_tau = _solve(A_tikh, b, maxiter)\n        prog.increment()\n", "        from numpy.random import rand\n        g_tau = _solve(A_tikh, b + 0 * rand(b.size), maxiter)\n        prog.increment()\n", "fire", "rand")
+V("c17-mock-unseeded", "C17", "mock_data.py", "    rs: RandomState = RandomState(seed=seed)", "    rs: RandomState = RandomState()", "fire", "mock_data")
+V("c17-num-procs-chunks", "C17", "analysis/drt/bht.py", "        for _ in range(0, num_attempts)\n    )", "        for _ in range(0, num_attempts + num_procs)\n    )", "fire", "num_procs-use")
+V("c17-fit-unordered", "C17", FIT, "                iterator = pool.imap(_fit_process, args, 1)", "                iterator = pool.imap_unordered(_fit_process, args, 1)", "fire", "fit_circuit")
+V("c17-benign-serial-comprehension", "C17", "analysis/drt/tr_nnls.py", "        g_tau = _solve(A_tikh, b, maxiter)\n        prog.increment()\n", "        g_tau = _solve(A_tikh, b, maxiter)\n        prog.increment(1)\n", "silent")
